@@ -33,8 +33,9 @@ structure TL (pr : Predictor) (q : InputQueue) (vals : List Input) (Tp : Nat →
 structure PTL (pr : Predictor) (H : Hist) (Tp : Nat → Input) (cur : Int) (q : InputQueue) (vals : List Input) : Prop where
   pt : PT pr q vals H
   tl : TL pr q vals Tp cur
-  /-- outside the re-simulation loop every queue has been asked for the newest simulated frame -/
-  asked : 0 < cur → q.lastRequestedFrame ≠ NULL_FRAME
+  /-- outside the re-simulation loop every queue has been asked for the newest simulated frame —
+  or, as in lockstep mode where nobody ever asks, it holds every simulated frame's real input -/
+  asked : 0 < cur → q.lastRequestedFrame ≠ NULL_FRAME ∨ cur ≤ (vals.length : Int)
 
 theorem predValue_append_self (pr : Predictor) (vals : List Input) (x : Input) (hx : x = predValue pr vals) :
     predValue pr (vals ++ [x]) = predValue pr vals := by
@@ -47,7 +48,12 @@ theorem PTL_addByFrame (pr : Predictor) (H : Hist) (Tp : Nat → Input) (cur : I
   have hnull : NULL_FRAME = (-1 : Int) := rfl
   have hpt' := PT_addByFrame pr q q' vals H inp n h.pt hn hadd
   obtain ⟨hlr, hpi, _, _, _, _, hnp, hpp⟩ := addByFrame_fields q q' inp n hadd
-  refine ⟨hpt', ⟨?_, ?_, by rw [hlr]; exact h.tl.lastReq⟩, by rw [hlr]; exact h.asked⟩
+  refine ⟨hpt', ⟨?_, ?_, by rw [hlr]; exact h.tl.lastReq⟩, ?_⟩
+  rotate_left 2
+  · intro hc
+    rcases h.asked hc with a | a
+    · left; rw [hlr]; exact a
+    · right; simp only [List.length_append, List.length_cons, List.length_nil]; push_cast; omega
   · -- the column
     intro f hf
     -- what happens to first_incorrect_frame
@@ -62,7 +68,11 @@ theorem PTL_addByFrame (pr : Predictor) (H : Hist) (Tp : Nat → Input) (cur : I
       exact ⟨by simp; omega, by rw [getD_append_lt _ _ _ a]; exact b⟩
     · -- an unverified frame: the queue is predicting, so the arrival is compared
       have hcur : 0 < cur := by omega
-      have hpred : q.prediction.frame ≠ NULL_FRAME := h.tl.predicting (by omega) (h.asked hcur)
+      have hreqd : q.lastRequestedFrame ≠ NULL_FRAME := by
+        rcases h.asked hcur with a | a
+        · exact a
+        · omega
+      have hpred : q.prediction.frame ≠ NULL_FRAME := h.tl.predicting (by omega) hreqd
       rcases h.pt.pred with ⟨hp0, _⟩ | ⟨start, hs, hpf, hsr, hH, hfm, hreq⟩
       · exact absurd hp0 hpred
       · obtain ⟨_, hfi', _⟩ := hpp hpred
@@ -292,7 +302,26 @@ structure QI (pr : Predictor) (q : InputQueue) (s : QSpec) (H : Hist) (Tp : Nat 
   pt : PT pr q s.vals H
   tl : TL pr q s.vals Tp cur
 
-def Asked (q : InputQueue) (cur : Int) : Prop := 0 < cur → q.lastRequestedFrame ≠ NULL_FRAME
+def Asked (q : InputQueue) (cur : Int) : Prop :=
+  0 < cur → q.lastRequestedFrame ≠ NULL_FRAME ∨ cur ≤ q.lastAddedFrame + 1
+
+theorem Asked.toPTL {q : InputQueue} {s : QSpec} {cur : Int} (ha : Asked q cur) (hr : Refines q.strip s) :
+    0 < cur → q.lastRequestedFrame ≠ NULL_FRAME ∨ cur ≤ (s.vals.length : Int) := by
+  intro hc
+  rcases ha hc with a | a
+  · exact Or.inl a
+  · right
+    have : q.lastAddedFrame = (s.vals.length : Int) - 1 := hr.lastAdded
+    omega
+
+theorem Asked.ofPTL {q : InputQueue} {s : QSpec} {cur : Int} (hr : Refines q.strip s)
+    (ha : 0 < cur → q.lastRequestedFrame ≠ NULL_FRAME ∨ cur ≤ (s.vals.length : Int)) : Asked q cur := by
+  intro hc
+  rcases ha hc with a | a
+  · exact Or.inl a
+  · right
+    have : q.lastAddedFrame = (s.vals.length : Int) - 1 := hr.lastAdded
+    omega
 
 theorem QI.pinv {pr q s H Tp cur} (h : QI pr q s H Tp cur) : PInv pr q s H := ⟨h.ring, h.pt⟩
 
@@ -304,16 +333,16 @@ theorem QI_add (pr : Predictor) (q q' : InputQueue) (s : QSpec) (H : Hist) (Tp :
     (hadd : q.addInput ⟨uf, v⟩ = .ok (q', fr)) :
     QI pr q' (s.submit uf v).1 H Tp cur ∧ Asked q' cur ∧ fr = (s.submit uf v).2 := by
   obtain ⟨hp, hfr⟩ := PInv_add pr q q' s H uf v fr h.pinv hadd
-  have := PTL_add pr H Tp cur q q' s uf v fr h.ring ⟨h.pt, h.tl, ha⟩ hadd
-  exact ⟨⟨hp.ring, this.pt, this.tl⟩, this.asked, hfr⟩
+  have := PTL_add pr H Tp cur q q' s uf v fr h.ring ⟨h.pt, h.tl, ha.toPTL h.ring⟩ hadd
+  exact ⟨⟨hp.ring, this.pt, this.tl⟩, Asked.ofPTL hp.ring this.asked, hfr⟩
 
 theorem QI_setDelay (pr : Predictor) (q q' : InputQueue) (s : QSpec) (H : Hist) (Tp : Nat → Input) (cur : Int)
     (d : Nat) (fills : List PlayerInput) (h : QI pr q s H Tp cur) (ha : Asked q cur)
     (hset : q.setFrameDelay d = .ok (q', fills)) :
     QI pr q' (s.setDelay d).1 H Tp cur ∧ Asked q' cur ∧ fills = (s.setDelay d).2 := by
   obtain ⟨hp, hfl⟩ := PInv_setDelay pr q q' s H d fills h.pinv hset
-  have := PTL_setDelay pr H Tp cur q q' s d fills h.ring ⟨h.pt, h.tl, ha⟩ hset
-  exact ⟨⟨hp.ring, this.pt, this.tl⟩, this.asked, hfl⟩
+  have := PTL_setDelay pr H Tp cur q q' s d fills h.ring ⟨h.pt, h.tl, ha.toPTL h.ring⟩ hset
+  exact ⟨⟨hp.ring, this.pt, this.tl⟩, Asked.ofPTL hp.ring this.asked, hfl⟩
 
 theorem discard_fields (q q' : InputQueue) (f : Frame) (hd : q.discardConfirmedFrames f = .ok q') :
     q'.prediction = q.prediction ∧ q'.firstIncorrectFrame = q.firstIncorrectFrame ∧
@@ -343,7 +372,9 @@ theorem QI_discard (pr : Predictor) (q q' : InputQueue) (s : QSpec) (H : Hist) (
   · have := h.tl.col; rw [e2]; exact this
   · have := h.tl.predicting; rw [e1, e3]; exact this
   · have := h.tl.lastReq; rw [e3]; exact this
-  · unfold Asked; rw [e3]; exact ha
+  · apply Asked.ofPTL hp.ring
+    have := ha.toPTL h.ring
+    rw [e3]; exact this
 
 /-- A rollback to frame `r`, at or before the queue's first incorrect frame: the prediction state
 is reset, the history forgotten, and the column is right for every frame below `r`. -/
@@ -406,7 +437,7 @@ theorem QI_request (pr : Predictor) (q q' : InputQueue) (s : QSpec) (H : Hist) (
     · exact absurd hfi.1 a
     · exact Or.inr (Or.inl x)
     · exact Or.inr (Or.inr x)
-  have hasked : Asked q' ((cur : Int) + 1) := fun _ => by rw [hlr, hnull]; omega
+  have hasked : Asked q' ((cur : Int) + 1) := fun _ => Or.inl (by rw [hlr, hnull]; omega)
   rcases hres with ⟨hst, _, hlt, hv, hp'⟩ | ⟨hst, hge, hv, hp'⟩
   · refine ⟨H, ⟨hp'.ring, hp'.pt, ⟨?_, ?_, Or.inr (by rw [hlr]; omega)⟩⟩, hasked, hfi', Or.inl ⟨hst, by omega, by rw [hv]; simp⟩⟩
     · intro f hf
